@@ -48,9 +48,9 @@ def judge(ik, mk, check_trait=False):
     return probs
 
 
-def run_decode(chk, module, theorems, ext, salt, n_quick=32, n_thorough=120):
+def run_decode(chk, module, theorems, ext, salt, n_quick=32, n_thorough=120, extra_targets=(), extra=None):
     chk.extract()
-    proved = chk.prove(module, theorems)
+    proved = chk.prove(module, theorems, extra_targets=extra_targets)
     if chk.tier == 'thorough' and proved:
         chk.leanchecker(module)
     n = n_thorough if chk.tier == 'thorough' else n_quick
@@ -64,6 +64,8 @@ def run_decode(chk, module, theorems, ext, salt, n_quick=32, n_thorough=120):
             W.constexpr_check(chk, run, max_cases=6 if chk.tier == 'quick' else 40)
     finally:
         run.cleanup()
+    if extra is not None:
+        extra(chk, W.configs_for(chk.tier))
     W.finish_cov(chk, run, 'one evaluation = one reference image (printed by the Lean specification from a random '
                  'value tree of a generated schema%s) decoded by the generated accessors of the real sbeppc output, '
                  'by random access and by cursor, under one compiler configuration; distinct = distinct '
@@ -83,7 +85,14 @@ def run_decode(chk, module, theorems, ext, salt, n_quick=32, n_thorough=120):
 
 
 def run(chk):
-    run_decode(chk, MODULE, THEOREMS, EXT, SALT)
+    from .. import c02bswap as B
+    run_decode(chk, MODULE, THEOREMS + B.THEOREMS, EXT, SALT, extra_targets=(B.MODULE,), extra=B.correspond)
+    chk.assumptions += [
+        'byte order: the compiled-in byteswap branch (compiler intrinsics / std::byteswap) is compared with the byte '
+        'reversal specification on value grids only (its semantics is the compiler\'s); the portable branch and the '
+        '__builtin_bswap32 16-bit variant, which no compiler present selects, are re-extracted from sbepp.hpp, proved '
+        'for every value, and additionally compiled verbatim and compared',
+    ]
 
 
 def replay(chk, rep):
